@@ -70,6 +70,7 @@ type wres struct {
 	Runs      int
 	Rebuilds  int
 	FlashSeen int
+	Slow      int // updateDag streams that needed more than 10 s (loaded machine)
 	WallS     float64
 	Truncated bool // the internal deadline ended this worker early
 }
@@ -556,7 +557,7 @@ func main() {
 	stats := map[string]*rpcStat{}
 	viol := map[string]*vrec{}
 	merged := &wres{Viol: viol}
-	runs, rebuilds, flash, truncated := 0, 0, 0, 0
+	runs, rebuilds, flash, truncated, slow := 0, 0, 0, 0, 0
 	var maxWall float64
 	wallBy := map[int]float64{}
 	for _, r := range results {
@@ -571,6 +572,7 @@ func main() {
 		runs += r.Runs
 		rebuilds += r.Rebuilds
 		flash += r.FlashSeen
+		slow += r.Slow
 		wallBy[r.Shard] += r.WallS
 		if wallBy[r.Shard] > maxWall {
 			maxWall = wallBy[r.Shard]
@@ -683,6 +685,7 @@ func main() {
 	rep.Set("controlled_executions", runs)
 	rep.Set("world_rebuilds_after_panic_or_state_change", rebuilds)
 	rep.Set("flashback_entries_recorded_exempt", flash)
+	rep.Set("updateDag_streams_slower_than_10s", slow)
 	rep.Set("workers", *procs)
 	rep.Set("worker_wall_s_max", maxWall)
 	tierNote := "quick: a schema whose full product has more than 200 000 members is covered by the valid base + every single-field sweep + every pair of fields over the full alphabets + the listed blocks (a block is the full product over the named fields with the named alphabets - red3 = {nil,31 bytes,exact} for bytes, {empty,valid,valid-checksum-31-byte-key} for addresses, all values otherwise - with all other fields valid)"
@@ -696,7 +699,7 @@ func main() {
 	rep.Assume("requests are non-nil messages (gRPC never hands a nil request to a handler); field contents other than length/presence/validity classes (e.g. particular byte values) are not varied")
 	rep.Assume("flashback memory (duplicate suppression / throttling) is exempt from the unchanged-state oracle: HasHash/HasAddress record the key by design; Notary.Data stores a challenge by design; a correctly signed vertex with unknown parents is parked by design")
 	rep.Assume("Announce/Discover dial the announced URL with insecure credentials and a dialer that always fails (grpc.Dial is lazy; no socket is opened); the announcer is wallet A, never a wired stub peer (stub peers have no *grpc.ClientConn to close)")
-	rep.Assume("client path updateDag is exercised with real gRPC over an in-process bufconn listener outside the controlled runtime (pass-through mode) with a 10 s watchdog per stream; processLackingParent is exercised inside the controlled runtime with a malicious GossipAPIClient installed in the peer table")
+	rep.Assume("client path updateDag is exercised with real gRPC over an in-process bufconn listener outside the controlled runtime (pass-through mode) with a 60 s watchdog per stream; processLackingParent is exercised inside the controlled runtime with a malicious GossipAPIClient installed in the peer table")
 	rep.Assume("one call at a time on the non-pre-emptive default schedule; after a panic, a refused-but-changed or an accepted state-changing request the world is rebuilt")
 	os.Exit(rep.Finish())
 }
